@@ -303,8 +303,20 @@ Fixpoint run_from (cfg : word) (s : st) (ops : list word) : st * list word :=
                let '(s2, e') := run_from cfg s1 r in (s2, e ++ e')
   end.
 
+(* op [13; id; j; v]: policy id reports READY and, while the channel is still inside the
+   UpdateState call that forwards it, policy j (another one) reports v from a second goroutine.
+   gsb.mu is held across the forward, so the second report waits for it: the operation is the
+   sequence of the two reports, and the driver records it as two chunks. *)
+Definition expand_op (op : word) : list word :=
+  match op with
+  | [13; id; j; v] =>
+    if negb (id =? j) && (0 <=? v) && (v <=? 3) then [[2; id; 2]; [2; j; v]] else [op]
+  | _ => [op]
+  end.
+Definition expand (ops : list word) : list word := flat_map expand_op ops.
+
 Definition run (cfg : word) (ops : list word) : option (list word) :=
-  Some (snd (run_from cfg init ops)).
+  Some (snd (run_from cfg init (expand ops))).
 
 (* ================= the property as a predicate on observations ================= *)
 
@@ -455,7 +467,7 @@ Fixpoint clauses_from (cfg : word) (s : st) (ops obs : list word) (i : Z) : list
   end.
 
 Definition clauses (cfg : word) (ops obs : list word) : list (Z * Z * bool) :=
-  clauses_from cfg init ops obs 0.
+  clauses_from cfg init (expand ops) obs 0.
 
 Definition holds_b (cfg : word) (ops obs : list word) : bool :=
   forallb (fun c => snd c) (clauses cfg ops obs).
